@@ -44,7 +44,7 @@ if ok:
     am = json.load(open(os.path.join(src, "meta.json")))
     meta = {
         "id": sid,
-        "property": am.get("property"),
+        "property": "C" + (am.get("property") or "")[-2:] if (am.get("property") or "")[-2:].isdigit() else am.get("property"),
         "files": am.get("files"), "functions": am.get("functions"),
         "summary": am.get("summary"),
         "needs_to_manifest": am.get("needs_to_manifest"),
